@@ -36,7 +36,7 @@ def plan(tier, seed):
                     cases.append({"mode": "dfs", "cfg": cfg, "prefix": [0, c0, c1, c2], "depth": d + 1, "tier": tier})
     nwalk = 8000 if tier == "quick" else 150000
     for i in range(nwalk):
-        cases.append({"mode": "walk", "seed": seed, "idx": i, "cfg": {"n": 1 + i % 3, "async": i % 4 == 3, "foreign": i % 5 == 0, "hc": i % 3 == 1, "ext": i % 2 == 1, "sp": (i // 2) % 4 if i % 6 == 5 else 0}, "len": 10 + i % 5})
+        cases.append({"mode": "walk", "seed": seed, "idx": i, "cfg": {"n": 1 + i % 3, "async": i % 4 == 3, "foreign": i % 5 == 0, "hc": i % 3 == 1, "ext": i % 2 == 1, "sp": (i // 2) % 4 if i % 6 == 5 else 0, "veto": (seed * 100000 + i + 1) if i % 5 == 2 else 0}, "len": 10 + i % 5})
     # directed case for the listed finding C11-restart-replaced-bet
     cases.insert(0, {"mode": "events", "cfg": {"n": 1, "async": False}, "events": [["place", 0], ["resp", 0], ["fill", 0, 0.4], ["snap"], ["replace", 0], ["resp", 0], ["snap"], ["restart"]]})
     return cases
@@ -62,6 +62,23 @@ class Run:
         self.log = []
         self.restarted = False
         self.replaced = set()
+        self.stranded_by_own_exception = set()
+        if cfg.get("veto"):
+            # a trading control added by the application refuses some cancel / update / replace requests (seeded); a refused request
+            # leaves the order as it was
+            from flumine.controls import BaseControl
+            from flumine.order.orderpackage import OrderPackageType
+
+            vrng = simgen.mk_rng(cfg["veto"], 0, 1111)
+
+            class Veto(BaseControl):
+                NAME = "VETO"
+
+                def _validate(s_, order, package_type):
+                    if package_type != OrderPackageType.PLACE and vrng.random() < 0.5:
+                        s_._on_error(order, "vetoed")
+
+            self.w.fw.trading_controls.append(Veto(self.w.fw))
         if cfg.get("foreign"):
             # a bet of a strategy that is not registered here: must be ignored without effect
             self.ex._new_bet(self.mid, {"selectionId": 703, "side": "BACK", "orderType": "LIMIT", "handicap": 0, "customerOrderRef": "0123456789abc-111111111111111111", "limitOrder": {"price": 4.0, "size": 3.0, "persistenceType": "LAPSE"}}, None)
@@ -110,6 +127,7 @@ class Run:
                 ev.append(("cancel", i))
                 if self.cfg.get("ext"):
                     ev.append(("pcancel", i))
+                    ev.append(("tctx", i))
                 ev.append(("replace", i))
                 ev.append(("update", i))
         if self.budget["snap"] > 0:
@@ -154,6 +172,21 @@ class Run:
             elif k == "sp":
                 self.ex.reconcile_sp(self.bet_of(e[1])["betId"], 3.45)
                 self.budget["sp"] -= 1
+            elif k == "tctx":
+                # the strategy wraps two requests in `with trade:`; the second is refused with an exception that leaves the block
+                o = self.local_of(e[1])
+                self.budget["req"] -= 1
+                try:
+                    with o.trade:
+                        m.cancel_order(o)
+                        m.replace_order(o, new_price=o.order_type.price)
+                except FlumineException as ex2:
+                    self.log[-1].append("exc:" + type(ex2).__name__)
+                    # flumine deliberately leaves a trade PENDING when its own `with trade:` block raises (Trade.__exit__ logs it as
+                    # critical); the next execution for one of its orders brings it back.  If nothing of this trade is on its way
+                    # to the exchange, it stays like that by design: excluded from the trade-status rules below
+                    if not any(any(x is o2 for o2 in o.trade.orders) for fn_, a_, kw_ in self.w.executor.queue for x in a_[0]):
+                        self.stranded_by_own_exception.add(id(o.trade))
             elif k == "pcancel":
                 o = self.local_of(e[1])
                 self.budget["req"] -= 1
@@ -276,7 +309,7 @@ def judge(run, out):
             out.v("live-order-missing-from-live-list", tags, bet=b, log=run.log)
         if o.trade.strategy is not st or o.market_id != b["marketId"] or (o.selection_id, o.side) != (b["selectionId"], b["side"]):
             out.v("order-in-wrong-market-or-strategy", tags, bet=b)
-        if all(x.complete for x in o.trade.orders) and o.trade.status.name != "COMPLETE":
+        if all(x.complete for x in o.trade.orders) and o.trade.status.name != "COMPLETE" and id(o.trade) not in run.stranded_by_own_exception:
             out.v("trade-not-complete-although-orders-are", dict(tags, tstatus=o.trade.status.name), bet=b, log=run.log)
     for o in local:
         if o.bet_id and str(o.bet_id) not in ex.bets:
@@ -296,6 +329,8 @@ def judge(run, out):
             # live-trade count: one trade per customer reference chain
             live_refs = {b["customerOrderRef"] for b in mine if (b["selectionId"], b["handicap"]) == sel and b["status"] != "EXECUTION_COMPLETE"}
             ctx = st.get_runner_context(run.mid, sel[0], sel[1])
+            if any(id(o_.trade) in run.stranded_by_own_exception for o_ in local if (o_.selection_id, o_.handicap) == sel):
+                continue
             if ctx.live_trade_count != len(live_refs):
                 out.v("live-trade-count-differs-from-exchange-table", dict(tags, shared_ref=len({b["customerOrderRef"] for b in mine}) < len(mine), direction="over" if ctx.live_trade_count > len(live_refs) else "under"), ctx=ctx.live_trade_count, expected=len(live_refs), log=run.log)
     out.d("seq:%s%s%s:%r" % (run.cfg.get("n"), "a" if run.cfg.get("async") else "s", "h" if run.cfg.get("hc") else "", run.log))
